@@ -662,7 +662,10 @@ def deps_of(v):
         if k == "str" and v.digits:
             for x in v.digits:
                 d = d | deps_of(x)
-        if k == "str" and v.chars:
+        if k == "str" and v.chars and isinstance(v.chars, dict):
+            for b in v.chars.values():          # charset string: letter -> presence bit
+                d = d | bit_deps(b)
+        elif k == "str" and v.chars:
             for c, x in v.chars:
                 d = d | deps_of(x)
         return d
